@@ -242,43 +242,62 @@ func (c *Conn) Write(p []byte) (int, error) {
 		c.signal()
 		c.unlock()
 	}()
+	// Like a socket: what fits into the peer's window goes out at once, the rest
+	// waits; a deadline, a reset or a Close that ends the wait leaves a write that
+	// reports the bytes already out together with its error.
+	done := 0
 	for {
 		c.lock()
 		c.call("Write")
 		if c.closed {
 			c.unlock()
-			return 0, opErr("write", net.ErrClosed)
+			return done, opErr("write", net.ErrClosed)
 		}
 		if c.rst {
 			c.unlock()
-			return 0, opErr("write", errPipe)
+			return done, opErr("write", errPipe)
 		}
 		dl := c.wdl
 		if !dl.IsZero() && !time.Now().Before(dl) {
 			c.Fired["write_timeout"]++
-			c.unlock()
-			return 0, opErr("write", os.ErrDeadlineExceeded)
-		}
-		if c.Window > 0 && len(c.Out)-c.Consumed > c.Window {
-			c.Fired["backpressure_block"]++
-			w := c.wake
-			c.unlock()
-			sched.RaceDisable()
-			if dl.IsZero() {
-				<-w
-			} else {
-				t := time.NewTimer(time.Until(dl))
-				select {
-				case <-w:
-				case <-t.C:
-				}
-				t.Stop()
+			if done > 0 {
+				c.Fired["partial_write"]++
 			}
-			sched.RaceEnable()
-			c.Sim.Yield("conn.Write.wake")
-			continue
+			c.unlock()
+			return done, opErr("write", os.ErrDeadlineExceeded)
 		}
-		n := len(p)
+		n := len(p) - done
+		if c.Window > 0 {
+			room := c.Window - (len(c.Out) - c.Consumed)
+			if room <= 0 {
+				c.Fired["backpressure_block"]++
+				w := c.wake
+				c.unlock()
+				sched.RaceDisable()
+				if dl.IsZero() {
+					<-w
+				} else {
+					t := time.NewTimer(time.Until(dl))
+					select {
+					case <-w:
+					case <-t.C:
+					}
+					t.Stop()
+				}
+				sched.RaceEnable()
+				c.Sim.Yield("conn.Write.wake")
+				continue
+			}
+			if n > room {
+				// a large write against a small window makes progress in pieces of at
+				// least 1/32 of what is left (so that it costs hundreds of decisions,
+				// not tens of thousands)
+				if n/32 > room {
+					room = n / 32
+				}
+				n = room
+			}
+		}
 		var err error
 		if c.WriteErrAfter >= 0 {
 			room := c.WriteErrAfter - len(c.Out)
@@ -296,10 +315,14 @@ func (c *Conn) Write(p []byte) (int, error) {
 		}
 		if n > 0 {
 			c.Writes = append(c.Writes, WriteRec{Gid: sched.Gid(), Step: c.Sim.Step, Off: len(c.Out), N: n, At: c.Sim.Now()})
-			c.Out = appendBytes(c.Out, p[:n])
+			c.Out = appendBytes(c.Out, p[done:done+n])
+			done += n
+			c.signal() // the peer has something to read
 		}
 		c.unlock()
-		return n, err
+		if err != nil || done == len(p) {
+			return done, err
+		}
 	}
 }
 
